@@ -9,7 +9,13 @@ from bitcoin.core import (COutPoint, CMutableOutPoint, CTxIn, CMutableTxIn, CTxO
                           CTransaction, CMutableTransaction, ValidationError)
 from bitcoin.core.script import CScript, SignatureHash, OP_CHECKSIG
 from bitcoin.core.scripteval import VerifyScript
-from .txconv import tx_from_val, witness_from_val
+from .txconv import tx_from_val, witness_from_val, tx_from_val_any
+
+
+def how(v):
+    # harness-only choice of HOW an object with this value is obtained (constructor / parsed from a
+    # non-canonical encoding); derived from the value so that a replay is deterministic
+    return (v[0] + v[4] + len(v[1])) % 3
 
 FIELDS = ['hash', 'n', 'prevout', 'scriptSig', 'nSequence', 'nValue', 'scriptPubKey',
           'nVersion', 'vin', 'vout', 'wit', 'nLockTime']
@@ -95,7 +101,7 @@ def do_op(T, op):
         need_tx(o)
         del (o.vout if op[2] else o.vin)[op[3]]
     elif t == 9:
-        T.append(tx_from_val(op[2], mutable=bool(op[1])))
+        T.append(tx_from_val_any(op[2], mutable=bool(op[1]), style=how(op[2])))
     elif t == 10:
         o = resolve(T, op[3])
         k, m = op[1], op[2]
@@ -213,7 +219,7 @@ def run(op, a):
         return run_values(a)
     if op != 1:
         raise ValueError('op')
-    T = [tx_from_val(t, mutable=bool(m)) for m, t in a[0]]
+    T = [tx_from_val_any(t, mutable=bool(m), style=how(t)) for m, t in a[0]]
     out = [[0, state(T)]]
     for o in a[1]:
         r = guard(lambda: do_op(T, o))
